@@ -5,7 +5,8 @@
      map_wrappers_transparent   a stack of such wrappers of any height around a set yields that set
      targets_agree_under_lambda the same under a lambda head — the package idiom `{ pkgs }: … { … }`: both walks return the set
      targets_agree_on_wrappers  … and it is the set the CLI's traversal (Dyn/TargetGen.v, regenerated) finds: text edits and mapping edits address
-                                the same set through such stacks (C14: "text and mapping agree") *)
+                                the same set through such stacks (C14: "text and mapping agree")
+   Since the repair of F-64 the wrappers of the mapping's walk hand on the chain they were given, as the CLI's do. *)
 From Coq Require Import List Bool Arith Lia.
 Import ListNotations.
 From Dyn Require Import TargetGen TargetProps MapTargetGen.
@@ -98,7 +99,7 @@ Ltac enter_map sc Hv Hs :=
 
 Theorem map_through_plain f t b sc v st :
   plain_wrapper N (w_cls w) (w_body w) (w_value w) t b -> existsb (w_eqb w t) v = false -> scopes_okw t sc st ->
-  map_target w (S f) t sc (v, st) = map_target w f b (chain_after t sc st) (t :: v, st).
+  map_target w (S f) t sc (v, st) = map_target w f b sc (t :: v, st).
 Proof.
   intros [[Hc Hb]|[[Hc Hb]|[Hc Hb]]] Hv Hs; enter_map sc Hv Hs; rewrite Hc, Hb; reflexivity.
 Qed.
@@ -119,13 +120,10 @@ Proof.
     assert (Hk : scopes_okw x sc st) by (apply Hok; left; reflexivity).
     rewrite (map_through_plain (S (List.length rest)) x (hd r rest) sc v st Hw Hv Hk).
     inversion HD as [|? ? Hnotin HD']; subst.
-    assert (Hsome : exists c, chain_after x sc st = Some c).
-    { unfold chain_after. destruct sc as [c|]; [exists c; reflexivity|]. destruct Hk as [c Hc]. rewrite Hc. exists c. reflexivity. }
-    destruct Hsome as [c Hc]. rewrite Hc.
-    rewrite (IH r (Some c) (x :: v) st HL Hr HD').
+    rewrite (IH r sc (x :: v) st HL Hr HD').
     + cbn [rev]. rewrite <- app_assoc. reflexivity.
     + intros y Hy [Hyx|Hyv]; [subst; contradiction|]. apply (Hfresh y); [right; exact Hy|exact Hyv].
-    + intros y Hy. exact I.
+    + intros y Hy. apply Hok. right. exact Hy.
 Qed.
 
 (* text edits and mapping edits address the same set through any stack of assert / let / parenthesis wrappers *)
@@ -141,7 +139,7 @@ Qed.
 (* ---- under a lambda head (the package idiom `{ pkgs }: … { … }`) ---- *)
 Theorem map_through_lambda f t o sc v st :
   w_cls w t = CFunDef -> w_output w t = Some o -> w_cls w o <> CCall -> existsb (w_eqb w t) v = false -> scopes_okw t sc st ->
-  map_target w (S f) t sc (v, st) = try_valueerror N store (map_target w f o (chain_after t sc st)) (raiseV N store) (t :: v, st).
+  map_target w (S f) t sc (v, st) = try_valueerror N store (map_target w f o sc) (raiseV N store) (t :: v, st).
 Proof.
   intros Hc Ho Hn Hv Hs. enter_map sc Hv Hs; rewrite Hc, Ho; unfold is_cls; destruct (w_cls w o); try congruence; reflexivity.
 Qed.
@@ -162,11 +160,8 @@ Proof.
   assert (Hhead : w_cls w (hd r ws) <> CCall).
   { destruct ws as [|x rest]; cbn [hd]; [rewrite Hr; discriminate|]. destruct HL as [Hw _]. apply (plain_not_call_not_set _ _ Hw). }
   split.
-  - rewrite (map_through_lambda _ t (hd r ws) sc v st Hc Ho Hhead Hv Hk).
-    assert (Hsome : exists c, chain_after t sc st = Some c).
-    { unfold chain_after. destruct sc as [c|]; [exists c; reflexivity|]. destruct Hk as [c Hc']. rewrite Hc'. exists c. reflexivity. }
-    destruct Hsome as [c Hc']. rewrite Hc'. unfold try_valueerror.
-    rewrite (map_wrappers_transparent ws r (Some c) (t :: v) st HL Hr HD' Hfresh'); [reflexivity|]. intros y Hy. exact I.
+  - rewrite (map_through_lambda _ t (hd r ws) sc v st Hc Ho Hhead Hv Hk). unfold try_valueerror.
+    rewrite (map_wrappers_transparent ws r sc (t :: v) st HL Hr HD' Hfresh'); [reflexivity|]. intros y Hy. apply Hok. right. exact Hy.
   - destruct ws as [|x rest].
     + cbn [hd List.length] in *. unfold target.
       rewrite (through_lambda_set N (w_eqb w) (wSC w) (w_truthy w) store (w_cls w) (w_body w) (w_value w) (w_output w) (w_argument w) (w_strip w)
@@ -321,8 +316,7 @@ Lemma map_step f x child sc v st :
 Proof.
   intros Hw Hv Hok Hlk. pose proof (truthy_ok x sc st Hlk) as Hk. destruct (Hlk st) as [c [Hsc Ht]].
   destruct Hw as [[Hp|[Hc Hb]]|[Hc Hval]].
-  - exists (chain_after x sc st), st. split; [|apply map_through_plain; assumption].
-    unfold chain_after. destruct sc as [c1|]; [exact Hok|]. rewrite Hsc. exact Ht.
+  - exists sc, st. split; [exact Hok|apply map_through_plain; assumption].
   - exists (Some c), (w_attach w child x st). split; [exact Ht|].
     enter_map sc Hv Hk; rewrite Hc; unfold TargetGen.bind, get_scopes, do_attach; cbn [fst snd]; rewrite ?Hsc; rewrite ?Ht; rewrite Hb; try reflexivity.
   - destruct (map_through_ident f x child sc v st Hc Hval Hv Hok Hlk) as [c1 [st1 [Ht1 E]]]. exists (Some c1), st1. split; [exact Ht1|exact E].
